@@ -69,6 +69,7 @@ def run(chk, rules=None, as_prop=None):
     chk.rule("G8", "the function type (element-wise / aggregate / window) of a composite expression accounts for every child: no child's ftype() is computed and discarded inside an ftype method")
     chk.rule("G6r", "check_subquery: every return of a rebuilt chain passes through a requires_subquery re-test (must-pass-through)")
     chk.rule("G9", "typestate model check: Cache.update / Cache.requires_subquery interpreted on every verb sequence up to the bound agree with the reference automaton of one SQL SELECT (hazards refused, the never-needs-a-subquery class accepted, a subquery makes the verb fit, Polars never asks)")
+    chk.rule("G8v", "function type of composite expressions (CaseExpr.ftype, ColFn.ftype) interpreted for every combination of child kinds: window > aggregate > element-wise, constants do not count, conditions count, nesting table of ColFn.ftype")
     chk.rule("G7", "SqlImpl.compile_ast materialises SubqueryMarker as a subquery and restarts the query state")
 
     cache = repo.mod("pipe.cache")
@@ -183,6 +184,10 @@ def run(chk, rules=None, as_prop=None):
     if judged:
         chk.floor("G9", "judged (cache state, verb) pairs", judged, 3000)
     chk.trusted.append("cachesim.Ref: reference automaton of the clauses of one SQL SELECT (evaluation order FROM/JOIN, WHERE, GROUP BY, HAVING, window, ORDER BY, LIMIT)")
+
+    from .. import colexprsim
+
+    colexprsim.report(chk, m, "G8v", ["CaseExpr.ftype", "ColFn.ftype"], floor=200)
 
     # ---- G4 builders
     _builders(chk, sym)
